@@ -755,6 +755,6 @@ def plan(tier):
   return [
     Enum("port-status-sequences", lambda: enum_ports(tier), shards=16),
     Enum("stats-partitions", lambda: enum_stats(tier), shards=16),
-    Hyp("port-histories", lambda: _s_ports(tier), examples=60000, shards=16),
-    Hyp("stats-streams", lambda: _s_stats(tier), examples=80000, shards=16),
+    Hyp("port-histories", lambda: _s_ports(tier), examples=150000, shards=16),
+    Hyp("stats-streams", lambda: _s_stats(tier), examples=250000, shards=16),
   ]
